@@ -31,5 +31,59 @@ def deliverable (c : Center) (n : Name) (s : Obj) (target : Option Obj) (r : Reg
   (firstHold c (observerKeys n s r.observer)).isNone &&
   !(c.dead.contains r.observer)
 
+/-! ### Pending copies and deliveries of one notification, seen from one observer -/
+
+/-- queue entry `q` is a pending copy of notification `(n, s, d)` that observer `o` is to get: it is
+not restricted to an observer, or it is restricted to `o` -/
+def Note.isFor (n : Name) (s : Obj) (d : Data) (o : Obj) (q : Note) : Bool :=
+  q.name == n && q.sender == s && q.data == d && (q.target == none || q.target == some o)
+
+def cntL (n : Name) (s : Obj) (d : Data) (o : Obj) (l : List Note) : Nat :=
+  (l.filter (Note.isFor n s d o)).length
+
+/-- how many pending copies of `(n, s, d)` wait for `o`, over all hold queues -/
+def pend (c : Center) (n : Name) (s : Obj) (d : Data) (o : Obj) : Nat :=
+  (c.holds.map (fun kh => cntL n s d o kh.2.queue)).sum
+
+/-- is this event a delivery of `(n, s, d)` to (some callback of) observer `o`? -/
+def isDel (n : Name) (s : Obj) (d : Data) (o : Obj) : Ev → Bool
+  | .deliver o' _ n' s' d' => o' == o && n' == n && s' == s && d' == d
+  | _ => false
+
+/-- the deliveries of `(n, s, d)` to `o` in an event log, in order -/
+def delTo (n : Name) (s : Obj) (d : Data) (o : Obj) (evs : List Ev) : List Ev := evs.filter (isDel n s d o)
+
+/-- what `o` is due when `(n, s, d)` is posted once: one delivery per matching registration of `o`,
+least to most specific key; nothing when `o` has died -/
+def due (c : Center) (n : Name) (s : Obj) (d : Data) (o : Obj) : List Ev :=
+  ((matching c n s).filter (fun r => r.observer == o && !(c.dead.contains o))).map (deliverEv n s d)
+
+/-- the histories of `overlapping_holds_deliver_once`: posts, holds and releases (any of the 8 scopes) -/
+def isHoldOrPost : Op → Bool
+  | .post _ _ _ none => true
+  | .hold _ _ _ _ => true
+  | .release _ _ _ => true
+  | _ => false
+
+/-- how often `(n, s, d)` is posted in an operation list -/
+def postsOf (n : Name) (s : Obj) (d : Data) : List Op → Nat
+  | [] => 0
+  | .post n' s' d' _ :: ops => (if n' = n ∧ s' = s ∧ d' = d then 1 else 0) + postsOf n s d ops
+  | _ :: ops => postsOf n s d ops
+
+/-! ### What a glob pattern means, declaratively (no search order, no backtracking) -/
+
+/-- membership in a bracket expression: some range contains the character -/
+def InSet (items : List (Char × Char)) (c : Char) : Prop := ∃ it ∈ items, it.1 ≤ c ∧ c ≤ it.2
+
+/-- The string is the concatenation of one piece per token: `lit c` contributes exactly `c`, `?` any
+one character, `[seq]` one character of the set (`[!seq]`: one character outside it), `*` any string. -/
+def Matches : List Tok → List Char → Prop
+  | [], s => s = []
+  | .lit c :: ts, s => ∃ s', s = c :: s' ∧ Matches ts s'
+  | .any :: ts, s => ∃ d s', s = d :: s' ∧ Matches ts s'
+  | .star :: ts, s => ∃ u v, s = u ++ v ∧ Matches ts v
+  | .set neg items :: ts, s => ∃ d s', s = d :: s' ∧ (InSet items d ↔ neg = false) ∧ Matches ts s'
+
 end Notify
 end DefconModel
